@@ -414,6 +414,11 @@ pub const CONCURRENT_ATOMS: &[(&str, &str)] = &[
     ("any", "async function main(){ const p1 = order({err: 'first fails'}); const p2 = order({k: 2}); const w = await Promise.any([p1, p2]); return w; }"),
     ("then-callbacks", "async function main(){ const p = order({k: 5}); let seen = 'none'; const q = Promise.resolve(p).then(v => { seen = 'then:' + v; return v + 1; }); const r = await q; return [seen, r]; }"),
     ("mixed-immediate-and-pending", "async function main(){ const p1 = order({k: 1}); const v = await order({k: 10}); const r1 = await p1; const p2 = order({k: 2}); return [v, r1, await p2]; }"),
+    ("indirect-orders-map", "async function main(){ const ps = [{k: 1}, {k: 2}, {k: 3}].map(order); const r = await Promise.all(ps); return r; }"),
+    ("indirect-orders-foreach-then-await", "async function main(){ const got = []; [{k: 4}, {k: 5}].forEach(function(p){ got.push(order(p)); }); [{k: 6}].forEach(order); const r = await Promise.all(got); const after = await order({k: 7}); return [r, after]; }"),
+    ("indirect-orders-foreach-push", "async function main(){ const got = []; [{k: 4}, {k: 5}].forEach(function(p){ got.push(order(p)); }); const r = await Promise.all(got); return r; }"),
+    ("indirect-fire-and-forget", "async function main(){ [{k: 6}].forEach(order); const after = await order({k: 7}); return after; }"),
+    ("indirect-fire-and-forget-last", "async function main(){ const first = await order({k: 7}); [{k: 6}].forEach(order); return first; }"),
     ("cancel-explicit", "import { __cancelOrder__ } from \"tsrun:host\";\nasync function main(){ const v = await order({k: 4}); return v; }"),
 ];
 
